@@ -1,13 +1,280 @@
 /-
   C10 — Relationship queries agree with the tree's actual shape.
   Property theorems only; helper lemmas live in Nutree/Lemmas.
+
+  Setting: `root` is the system root, `self` the node at the non-empty path `p`
+  (`root.sub p = some self`), and all node identities of the tree are pairwise distinct
+  (`IdsNodup root`, defined in Nutree/Lemmas/Rel.lean).  Each operational accessor of
+  Nutree/Model/Rel.lean (which *searches* parents by identity) equals its path specification
+  of Nutree/Spec/Rel.lean.
 -/
 import Nutree.Model.Rel
 import Nutree.Spec.Rel
+import Nutree.Lemmas.Iter
+import Nutree.Lemmas.Rel
+import Nutree.Lemmas.RelChain
+import Nutree.Lemmas.RelSib
 namespace Nutree.C10
 open Nutree T
 
 /-- `has_children` / `is_leaf` are complementary. -/
 theorem leaf_iff_no_children (self : T) : self.kids.isEmpty = !(!self.kids.isEmpty) := by simp
+
+/-! ### non-vacuity: a concrete tree with distinct identities (6 nodes, depth 3) -/
+
+private def mkI (n : Nat) : Info := { id := n, data := rootAtom, did := .int n }
+
+/-- system root 0 with tops 1 and 5; 1 has children 2 and 4; 2 has child 3 -/
+def exampleTree : T :=
+  .node (mkI 0) [.node (mkI 1) [.node (mkI 2) [.node (mkI 3) []], .node (mkI 4) []],
+                 .node (mkI 5) []]
+
+example : IdsNodup exampleTree ∧ (T.flat exampleTree).length = 6
+    ∧ exampleTree.sub [0, 0, 0] = some (.node (mkI 3) []) := by
+  refine ⟨?_, ?_, ?_⟩
+  · simp [IdsNodup, exampleTree, T.flat, T.flatL, mkI, T.id, T.info]
+  · simp [exampleTree, T.flat, T.flatL]
+  · simp [exampleTree, T.sub]
+
+/-! ### the two key facts, restated -/
+
+/-- the searched `_parent` is the node one step up the path -/
+theorem findParent_eq (root self : T) (p : List Nat) (hN : IdsNodup root) (hp : p ≠ [])
+    (hs : root.sub p = some self) : findParent self.id root = root.sub p.dropLast :=
+  findParent_eq_sub_dropLast hN hp hs
+
+/-- the `_parent` chain (fuel `root.size`) is: parent, grand-parent, …, system root -/
+theorem chain_eq (root self : T) (p : List Nat) (hN : IdsNodup root) (hp : p ≠ [])
+    (hs : root.sub p = some self) :
+    chain root self = (pathNodes root p.dropLast).reverse ++ [root] := by
+  obtain ⟨p', i, par, rfl, hpar, hi⟩ := snoc_cases hp hs
+  rw [List.dropLast_concat]; exact chain_snoc hN hpar hi
+
+/-- the same, by prefixes of the path: the nodes at `p.take (n-1)`, …, `p.take 1`, `p.take 0` -/
+theorem chain_range (root self : T) (p : List Nat) (hN : IdsNodup root) (hp : p ≠ [])
+    (hs : root.sub p = some self) :
+    chain root self =
+      (List.range p.length).reverse.filterMap (fun k => root.sub (p.take k)) := by
+  obtain ⟨p', i, par, rfl, hpar, hi⟩ := snoc_cases hp hs
+  rw [chain_snoc hN hpar hi, pathNodes_reverse_range _ p' par rfl hpar]
+  simp only [List.length_append, List.length_singleton]
+  apply filterMap_congr'
+  intro k hk
+  have : k ≤ p'.length := by simp at hk; omega
+  rw [List.take_append_of_le_length this]
+
+/-! ### single-node accessors -/
+
+theorem parent_eq (root self : T) (p : List Nat) (hN : IdsNodup root) (hp : p ≠ [])
+    (hs : root.sub p = some self) : parentOf root self = SpecRel.parent root p := by
+  obtain ⟨p', i, par, rfl, hpar, hi⟩ := snoc_cases hp hs
+  obtain ⟨rest, hc, hl⟩ := chain_cons hN hpar hi
+  simp only [parentOf, hc, SpecRel.parent, List.dropLast_concat, hpar, List.length_append,
+    List.length_singleton]
+  cases rest with
+  | nil => rw [if_pos (by simp at hl; omega)]
+  | cons a r => rw [if_neg (by simp at hl; omega)]
+
+theorem up_eq (root self : T) (p : List Nat) (hN : IdsNodup root) (hp : p ≠ [])
+    (hs : root.sub p = some self) (k : Int) : up root self k = SpecRel.up root p k := by
+  obtain ⟨p', i, par, rfl, hpar, hi⟩ := snoc_cases hp hs
+  unfold up SpecRel.up
+  by_cases hk : k < 1
+  · simp [hk]
+  · rw [if_neg hk, chain_getElem? hN hpar hi]
+    simp only [List.length_append, List.length_singleton]
+    by_cases hle : (k - 1).toNat ≤ p'.length
+    · have h2 : ¬ (k < 1 ∨ k.toNat > p'.length + 1) := by omega
+      rw [if_pos hle, if_neg h2]
+      have h3 : p'.length + 1 - k.toNat = p'.length - (k - 1).toNat := by omega
+      rw [h3, List.take_append_of_le_length (by omega)]
+    · have h2 : k < 1 ∨ k.toNat > p'.length + 1 := by omega
+      rw [if_neg hle, if_pos h2]
+
+theorem depth_eq (root self : T) (p : List Nat) (hN : IdsNodup root) (hp : p ≠ [])
+    (hs : root.sub p = some self) : calcDepth root self = SpecRel.depth p := by
+  obtain ⟨p', i, par, rfl, hpar, hi⟩ := snoc_cases hp hs
+  simp [calcDepth, SpecRel.depth, chain_length hN hpar hi]
+
+/-- the accumulator version `_ch` of `calc_height` computes the structural height -/
+theorem height_eq (t : T) : calcHeight t = t.height := by
+  simp [calcHeight, chT_eq]
+
+theorem siblings_eq (root self : T) (p : List Nat) (hN : IdsNodup root) (hp : p ≠ [])
+    (hs : root.sub p = some self) (addSelf : Bool) :
+    getSiblings root self addSelf = SpecRel.siblings root p addSelf := by
+  obtain ⟨p', i, par, rfl, hpar, hi⟩ := snoc_cases hp hs
+  unfold getSiblings SpecRel.siblings
+  rw [siblingsAll_model hN hpar hi, siblingsAll_spec hpar]
+  cases addSelf with
+  | true => simp
+  | false =>
+    simp only [Bool.false_eq_true, if_false, List.getLast?_concat]
+    exact filter_not_eq_eraseIdx (g := fun n => n.id == self.id) (idx_lt hi)
+      (kid_id_iff hN hpar hi)
+
+theorem index_eq (root self : T) (p : List Nat) (hN : IdsNodup root) (hp : p ≠ [])
+    (hs : root.sub p = some self) : getIndex root self = SpecRel.index p := by
+  obtain ⟨p', i, par, rfl, hpar, hi⟩ := snoc_cases hp hs
+  rw [getIndex_model hN hpar hi, SpecRel.index, List.getLast?_concat]
+
+theorem prev_eq (root self : T) (p : List Nat) (hN : IdsNodup root) (hp : p ≠ [])
+    (hs : root.sub p = some self) : prevSibling root self = SpecRel.prev root p := by
+  obtain ⟨p', i, par, rfl, hpar, hi⟩ := snoc_cases hp hs
+  unfold prevSibling SpecRel.prev
+  rw [isFirst_model hN hpar hi, getIndex_model hN hpar hi, siblingsAll_model hN hpar hi,
+    siblingsAll_spec hpar, List.getLast?_concat]
+  cases i with
+  | zero => simp
+  | succ j => simp
+
+theorem next_eq (root self : T) (p : List Nat) (hN : IdsNodup root) (hp : p ≠ [])
+    (hs : root.sub p = some self) : nextSibling root self = SpecRel.next root p := by
+  obtain ⟨p', i, par, rfl, hpar, hi⟩ := snoc_cases hp hs
+  unfold nextSibling SpecRel.next
+  rw [isLast_model hN hpar hi, getIndex_model hN hpar hi, siblingsAll_model hN hpar hi,
+    siblingsAll_spec hpar, List.getLast?_concat]
+  by_cases h : i + 1 = par.kids.length
+  · simp only [h, beq_self_eq_true, if_true]
+    rw [List.getElem?_eq_none (Nat.le_refl _)]
+  · simp [h]
+
+theorem first_last_eq (root self : T) (p : List Nat) (hN : IdsNodup root) (hp : p ≠ [])
+    (hs : root.sub p = some self) :
+    isFirstSibling root self = SpecRel.isFirst p ∧ isLastSibling root self = SpecRel.isLast root p
+      ∧ firstSibling root self = (SpecRel.siblingsAll root p).head?
+      ∧ lastSibling root self = (SpecRel.siblingsAll root p).getLast? := by
+  obtain ⟨p', i, par, rfl, hpar, hi⟩ := snoc_cases hp hs
+  refine ⟨?_, ?_, ?_, ?_⟩
+  · rw [isFirst_model hN hpar hi, SpecRel.isFirst, List.getLast?_concat]
+    rw [Bool.eq_iff_iff]; simp
+  · rw [isLast_model hN hpar hi, SpecRel.isLast, List.getLast?_concat, siblingsAll_spec hpar]
+  · rw [firstSibling, siblingsAll_model hN hpar hi, siblingsAll_spec hpar]
+  · rw [lastSibling, siblingsAll_model hN hpar hi, siblingsAll_spec hpar]
+
+theorem isTop_eq (root self : T) (p : List Nat) (hN : IdsNodup root) (hp : p ≠ [])
+    (hs : root.sub p = some self) : isTop root self = SpecRel.isTop p := by
+  obtain ⟨p', i, par, rfl, hpar, hi⟩ := snoc_cases hp hs
+  simp [isTop, SpecRel.isTop, chain_length hN hpar hi]
+
+theorem parentList_eq (root self : T) (p : List Nat) (hN : IdsNodup root) (hp : p ≠ [])
+    (hs : root.sub p = some self) (addSelf bottomUp : Bool) :
+    getParentList root self addSelf bottomUp =
+      (if bottomUp then (SpecRel.parentList root p addSelf).reverse
+       else SpecRel.parentList root p addSelf) := by
+  obtain ⟨p', i, par, rfl, hpar, hi⟩ := snoc_cases hp hs
+  have hup : ((if addSelf then [self] else []) ++ chain root self).dropLast =
+      (SpecRel.parentList root (p' ++ [i]) addSelf).reverse := by
+    rw [chain_snoc hN hpar hi, SpecRel.parentList, List.dropLast_concat,
+      pathNodes_concat hpar hi, ← List.append_assoc, List.dropLast_concat]
+    cases addSelf <;> simp
+  unfold getParentList
+  simp only [hup]
+  cases bottomUp <;> simp
+
+theorem top_eq (root self : T) (p : List Nat) (hN : IdsNodup root) (hp : p ≠ [])
+    (hs : root.sub p = some self) : getTop root self = SpecRel.top root p := by
+  rw [getTop, parentList_eq root self p hN hp hs true true]
+  simp [SpecRel.top, SpecRel.parentList]
+
+theorem path_eq (root self : T) (p : List Nat) (hN : IdsNodup root) (hp : p ≠ [])
+    (hs : root.sub p = some self) (addSelf : Bool) :
+    getPath root self addSelf = SpecRel.path root p addSelf := by
+  rw [getPath, parentList_eq root self p hN hp hs addSelf false]
+  simp [SpecRel.path]
+
+theorem count_eq (t : T) (leavesOnly : Bool) :
+    countDescendants t leavesOnly = SpecRel.countDescendants t leavesOnly := by
+  rw [countDescendants, SpecRel.countDescendants, iterPre_flat]
+
+/-! ### pairs of nodes -/
+
+theorem descendant_iff (root self other : T) (p q : List Nat) (hN : IdsNodup root)
+    (hp : p ≠ []) (hs : root.sub p = some self) (hq : q ≠ []) (ho : root.sub q = some other) :
+    isDescendantOf root self other = SpecRel.isDescendantOf p q := by
+  rw [isDescendantOf, parentList_eq root self p hN hp hs false true]
+  obtain ⟨p', i, par, rfl, hpar, hi⟩ := snoc_cases hp hs
+  simp only [if_true, List.any_reverse, SpecRel.parentList, Bool.false_eq_true, if_false,
+    List.dropLast_concat, SpecRel.isDescendantOf]
+  rw [Bool.eq_iff_iff, List.any_eq_true]
+  simp only [beq_iff_eq, Bool.and_eq_true, bne_iff_ne, ne_eq, decide_eq_true_eq,
+    List.isPrefixOf_iff_prefix]
+  rw [id_mem_pathNodes_iff hN hq ho, prefix_dropLast_concat (i := i)]
+  simp [hq]
+
+theorem ancestor_iff (root self other : T) (p q : List Nat) (hN : IdsNodup root)
+    (hp : p ≠ []) (hs : root.sub p = some self) (hq : q ≠ []) (ho : root.sub q = some other) :
+    isAncestorOf root self other = SpecRel.isDescendantOf q p := by
+  rw [isAncestorOf]; exact descendant_iff root other self q p hN hq ho hp hs
+
+/-- search along `self`'s path, deepest first, for the first node on `other`'s path -/
+private theorem lca_aux {root : T} {q : List Nat} (hN : IdsNodup root) :
+    ∀ (n : Nat) (p : List Nat) (self : T), p.length = n → root.sub p = some self →
+      (pathNodes root p).reverse.find?
+          (fun x => ((pathNodes root q).map T.id).contains x.id) =
+        SpecRel.lca root p q := by
+  intro n
+  induction n with
+  | zero =>
+    intro p self hn hs
+    have : p = [] := List.length_eq_zero_iff.1 hn
+    subst this
+    simp [pathNodes, SpecRel.lca, commonPrefix_nil_left]
+  | succ n ih =>
+    intro p self hn hs
+    have hp : p ≠ [] := by intro h; subst h; simp at hn
+    obtain ⟨p', i, par, rfl, hpar, hi⟩ := snoc_cases hp hs
+    rw [pathNodes_concat hpar hi, List.reverse_concat, List.find?_cons]
+    have hc : (((pathNodes root q).map T.id).contains self.id = true) ↔ (p' ++ [i]) <+: q := by
+      rw [← id_mem_pathNodes_iff hN hp hs]
+      simp
+    by_cases hpre : (p' ++ [i]) <+: q
+    · rw [hc.2 hpre]
+      simp only [SpecRel.lca, commonPrefix_of_prefix hpre]
+      rw [if_neg (by simp), hs]
+    · have : ((pathNodes root q).map T.id).contains self.id = false := by
+        cases h : ((pathNodes root q).map T.id).contains self.id with
+        | false => rfl
+        | true => exact absurd (hc.1 h) hpre
+      rw [this]
+      simp only
+      rw [ih p' par (by simpa using hn) hpar]
+      simp only [SpecRel.lca, commonPrefix_concat_of_not_prefix hpre]
+
+theorem lca_eq (root self other : T) (p q : List Nat) (hN : IdsNodup root)
+    (hp : p ≠ []) (hs : root.sub p = some self) (hq : q ≠ []) (ho : root.sub q = some other) :
+    getCommonAncestor root self other = SpecRel.lca root p q := by
+  unfold getCommonAncestor
+  simp only [parentList_eq root self p hN hp hs true true,
+    parentList_eq root other q hN hq ho true false, if_true, Bool.false_eq_true, if_false,
+    SpecRel.parentList]
+  exact lca_aux hN _ p self rfl hs
+
+/-! ### mutual consistency -/
+
+theorem depth_parentList (root self : T) (p : List Nat) (hN : IdsNodup root) (hp : p ≠ [])
+    (hs : root.sub p = some self) :
+    calcDepth root self = (getParentList root self false false).length + 1 := by
+  rw [depth_eq root self p hN hp hs, parentList_eq root self p hN hp hs false false]
+  obtain ⟨p', i, par, rfl, hpar, hi⟩ := snoc_cases hp hs
+  simp [SpecRel.depth, SpecRel.parentList, pathNodes_length hpar]
+
+theorem next_prev (root self : T) (p : List Nat) (hN : IdsNodup root) (hp : p ≠ [])
+    (hs : root.sub p = some self) :
+    ∀ n, prevSibling root self = some n →
+      ∃ q', q' ≠ [] ∧ root.sub q' = some n ∧ nextSibling root n = some self := by
+  intro n hn
+  rw [prev_eq root self p hN hp hs] at hn
+  obtain ⟨p', i, par, rfl, hpar, hi⟩ := snoc_cases hp hs
+  rw [SpecRel.prev, List.getLast?_concat, siblingsAll_spec hpar] at hn
+  cases i with
+  | zero => simp at hn
+  | succ j =>
+    simp only at hn
+    have hq : root.sub (p' ++ [j]) = some n := by rw [sub_concat j hpar, hn]
+    refine ⟨p' ++ [j], by simp, hq, ?_⟩
+    rw [next_eq root n (p' ++ [j]) hN (by simp) hq, SpecRel.next, List.getLast?_concat,
+      siblingsAll_spec hpar]
+    exact hi
 
 end Nutree.C10
